@@ -94,10 +94,10 @@ func (vi vinfo) length() int {
 func (vi vinfo) keys() []string {
 	m, _ := vi.Ref.(map[string]any)
 	ks := make([]string, 0, len(m))
+	// a `_`-prefixed key that is a real member of the value is an ordinary key
+	// (the documented extra keys are the ones the value does not have)
 	for k := range m {
-		if !strings.HasPrefix(k, "_") {
-			ks = append(ks, k)
-		}
+		ks = append(ks, k)
 	}
 	sort.Strings(ks)
 	return ks
@@ -564,7 +564,7 @@ func init() {
 	}
 
 	strTmpls = []tmpl{
-		S("index-inrange", 2, `length as $l | if $l > 0 then [.[0], .[$l - 1], .[-$l], .[-1]] else [] end`, TArr),
+		S("index-inrange", 2, `if type == "string" then (length as $l | if $l > 0 then [.[0], .[$l - 1], .[-$l], .[-1]] else [] end) else "na" end`, TArr),
 		S("slice-bounds", 3, "length as $l | [.[:$l], .[$l:], .[$l - 1:], .[1:$l], .[-$l:], .[:-$l], .[:-1], .[1:], .[-1:]]", TArr),
 		S("length", 3, "length", TNum),
 		S("utf8bytelength", 2, "utf8bytelength", TNum),
